@@ -181,7 +181,20 @@ type c20Gen struct {
 	ifaceNonNil    bool
 	nestedRepeated bool
 	encodeOnly     bool // holds a pointer-only implementer: encodable, not decodable
+	// interface (Any) nesting: current level while filling, and the deepest
+	// level reached by any non-nil interface of the value (see c20_deep_test.go)
+	ifLevel, maxIface int
 }
+
+// enterIface / leaveIface bracket the filling of a non-nil interface value.
+func (g *c20Gen) enterIface() {
+	g.ifLevel++
+	if g.ifLevel > g.maxIface {
+		g.maxIface = g.ifLevel
+	}
+}
+
+func (g *c20Gen) leaveIface() { g.ifLevel-- }
 
 const (
 	c20MaxDepth = 5
@@ -507,14 +520,18 @@ func (g *c20Gen) fill(rv reflect.Value, depth int, fopts amino.FieldOptions) {
 		if len(ponly) > 0 && (len(impls) == 0 || g.n(4) == 0) {
 			t := ponly[g.n(len(ponly))]
 			p := reflect.New(t.RT)
+			g.enterIface()
 			g.fill(p.Elem(), depth, amino.FieldOptions{})
+			g.leaveIface()
 			rv.Set(p)
 			g.ifaceNonNil, g.encodeOnly = true, true
 			return
 		}
 		t := impls[g.n(len(impls))]
 		p := reflect.New(t.RT)
+		g.enterIface()
 		g.fill(p.Elem(), depth, amino.FieldOptions{})
+		g.leaveIface()
 		if t.PtrPref {
 			rv.Set(p)
 		} else {
@@ -601,8 +618,19 @@ func (g *c20Gen) fillElem(ev reflect.Value, depth int, fopts amino.FieldOptions)
 
 // c20Build makes a *T for the given registered type from the tape.
 func c20Build(w *c20World, t *c20Type, tape []byte) (ptr reflect.Value, g *c20Gen) {
+	return c20BuildDeep(w, t, tape, 0)
+}
+
+// c20BuildDeep is c20Build with a forced spine of `deep` nested non-nil
+// interface values (deep == 0: the plain E6 value). Types that cannot host
+// such a spine (no recursive interface reachable) get the plain value.
+func c20BuildDeep(w *c20World, t *c20Type, tape []byte, deep int) (ptr reflect.Value, g *c20Gen) {
 	g = &c20Gen{w: w, tape: tape}
 	ptr = reflect.New(t.RT)
-	g.fill(ptr.Elem(), 0, amino.FieldOptions{})
+	if deep > 0 && c20GetDeep(w).reach[t.RT] {
+		g.fillSpine(ptr.Elem(), deep, amino.FieldOptions{})
+	} else {
+		g.fill(ptr.Elem(), 0, amino.FieldOptions{})
+	}
 	return ptr, g
 }
